@@ -4,29 +4,49 @@ from __future__ import annotations
 import copy
 
 import initbuild as ib
+import ir_from_source
 
 ID = "C01"
 RULE = ("random single-inheritance chains (depth<=3, attrs classes via attr.s/define/frozen/these/make_class and plain "
         "classes in between, exception bases) over the per-field space {default kind x init x kw_only x converter kind x "
         "validators x alias/private name x on_setattr} x class space {slots x frozen x cache_hash x kw_only x class "
         "on_setattr x pre/post}; per class several call shapes (positional prefix x keyword subset x malformed). "
-        "Non-trivial = the class has >=1 field that is not (mandatory, positional, no converter); distinct = distinct (class spec, call)")
+        "Non-trivial = the class has >=1 field that is not (mandatory, positional, no converter); distinct = distinct (class spec, call). "
+        "Thorough tier only (T3): additionally one `script` case per generated class -- the real source text of its "
+        "__init__/__attrs_init__ parsed into the IR of Model/InitIR.lean and compared syntactically with the model generator's script")
 ASSUMPTIONS = [
     "CPython argument binding is modelled by `Init.bind` and diff-tested here",
     "expected field order for a chain is computed by the harness from the specification (nearest definition wins); C07 checks collection itself",
     "which names are slot-backed along the MRO is read from the real class layout (C08 checks slot creation)",
+    "T3: harness/ir_from_source.py (ast -> IR) is trusted to translate faithfully; it checks that the text it reads compiles "
+    "to the code object that runs, and turns anything it does not recognise into an `unknown` statement (a visible disagreement)",
 ]
 EXHAUSTIVE = {"quick": False, "thorough": False}
 BUDGET_S = {"quick": 45, "thorough": 480}
 LEVEL_TEXT = ("Lean theorems about the executable model of _make_init_script/_attrs_to_init_script/_determine_setters/"
               "_is_slot_attr and CPython argument binding (see Properties/C01.lean); tied to /repo by differential "
               "correspondence over random class chains x call shapes comparing signature, annotations, every field's "
-              "symbolic value and the exception kind. Argument binding and attribute lookup are modelled, not proved.")
+              "symbolic value and the exception kind. Argument binding and attribute lookup are modelled, not proved. "
+              "T3 (thorough tier): for every sampled class the parsed source of the generated initializer is checked to be "
+              "exactly `genInit` of the class, and `C01_script_correct` proves that executing `genInit r` is `body r` for "
+              "every class and environment -- so on those classes the theorems hold for all call shapes of the text that runs, "
+              "not only the sampled ones. The observed script is also executed in Lean on every subset of its optional "
+              "parameters (<=64 calls, each callback failing in turn) against C01.spec/C02.spec.")
 
 
 def make_case(hspec, call):
     run, is_define, cls_on = ib.run_in(hspec)
     return {"run": run, "call": call, "isDefine": is_define, "clsOnSet": cls_on, "hspec": hspec}
+
+
+def make_script_case(hspec):
+    """T3: the class alone; the observation is the parsed source of its generated initializer"""
+    run, is_define, cls_on = ib.run_in(hspec)
+    return {"kind": "script", "run": run, "isDefine": is_define, "clsOnSet": cls_on, "hspec": hspec}
+
+
+def is_script(case):
+    return case.get("kind") == "script"
 
 
 def gen_cases(tier, rng):
@@ -40,11 +60,22 @@ def gen_cases(tier, rng):
             continue
         for _ in range(4):
             yield make_case(h, ib.gen_call(rng, h))
+        if tier == "thorough":
+            yield make_script_case(h)
+
+
+def observe_script(case):
+    h = case["hspec"]
+    C = ib.build(h)[-1]
+    init_name = "__attrs_init__" if h["classes"][-1].get("init") is False else "__init__"
+    return {"script": ir_from_source.parse_init(C, init_name)}
 
 
 def observe(case):
     if "__gen_error__" in case:
         raise RuntimeError("class spec did not define: " + case["__gen_error__"])
+    if is_script(case):
+        return observe_script(case)
     _, obs = ib.construct(case["hspec"], case["call"], None, True)
     obs["trace"], obs["excArgs"], obs["cache"] = [], None, None      # C02 / C04 observe these
     return obs
@@ -54,10 +85,20 @@ def nontrivial(case, model):
     return any(not (a["dflt"] == "none" and a["init"] and not a["kwOnly"] and a["conv"] is None) for a in case["run"]["attrs"])
 
 
+def _stmt_kind(st):
+    return st if isinstance(st, str) else next(iter(st), "?")
+
+
 def dist(case, obs):
     leaf = case["hspec"]["classes"][-1]
     r = case["run"]
+    if is_script(case):
+        body = obs.get("script", {}).get("body", []) if isinstance(obs, dict) else []
+        n_opt = sum(1 for p in obs.get("script", {}).get("params", []) if p.get("dflt") != "required") if isinstance(obs, dict) else -1
+        return {"kind": "script", "n_stmts": len(body), "unknown": sum(1 for st in body if _stmt_kind(st) == "unknown"),
+                "n_optional_params": n_opt, "script_api": leaf.get("api"), "script_n_fields": len(r["attrs"])}
     return {
+        "kind": "call",
         "depth": len(case["hspec"]["classes"]),
         "api": leaf.get("api"),
         "n_fields": len(r["attrs"]),
@@ -69,6 +110,14 @@ def dist(case, obs):
 
 
 def shrink(case):
+    if is_script(case):
+        for c in shrink(dict(make_case(case["hspec"], {"pos": [], "kw": []}))):
+            if c["hspec"] != case["hspec"]:
+                try:
+                    yield make_script_case(c["hspec"])
+                except Exception:  # noqa: BLE001
+                    continue
+        return
     h = case["hspec"]
     # drop a field / a class / reset options, then rebuild the case
     for ci, cs in enumerate(h["classes"]):
@@ -114,6 +163,11 @@ def _remake(h2, call):
 
 
 def neighbours(case, rng):
+    if is_script(case):
+        # the script differs from the model's: look for a call of that class on which the behaviour differs
+        for _ in range(24):
+            yield make_case(case["hspec"], ib.gen_call(rng, case["hspec"], malformed=0.05))
+        return
     for _ in range(12):
         yield make_case(case["hspec"], ib.gen_call(rng, case["hspec"]))
     yield from shrink(case)
